@@ -40,6 +40,16 @@ class FakeTimedelta:
     def __neg__(self):
         return FakeTimedelta(seconds=-self.secs, microseconds=-self.micro)
 
+    def __radd__(self, other):
+        if isinstance(other, _dt.datetime) and _conc(self.secs, self.micro):
+            return other + _dt.timedelta(seconds=self.secs, microseconds=self.micro)
+        return NotImplemented
+
+    def __rsub__(self, other):
+        if isinstance(other, _dt.datetime) and _conc(self.secs, self.micro):
+            return other - _dt.timedelta(seconds=self.secs, microseconds=self.micro)
+        return NotImplemented
+
     def __eq__(self, o):
         return isinstance(o, FakeTimedelta) and self.secs == o.secs and self.micro == o.micro
 
@@ -263,7 +273,17 @@ class FakeTimeModule:
 
     @property
     def daylight(self):
-        return 1
+        """non-zero iff the zone has daylight-saving rules at all (NOT whether they are in force now)"""
+        z = self._w.zone
+        if isinstance(z.std, SymInt) or isinstance(z.dst, SymInt):
+            return SymInt(z3.If(pse._z(z.std) != pse._z(z.dst), 1, 0))
+        return 1 if z.std != z.dst else 0
+
+    def monotonic(self):
+        return self._w.now
+
+    def sleep(self, s):
+        pass
 
     def time(self):
         return self._w.now
